@@ -163,6 +163,17 @@ def limit_programs(dev):
             {"op": "transfer", "src": 0, "sw": L([(0, 1)]), "dst": 0, "dw": L([(0, 0)]), "vols": S(1), "label": "underflow by 1", "wash": 1},
         ]
         progs.append(h)
+    # the label of a rejected step is free text: characters with a meaning in format strings must not change the outcome
+    prog("labels-with-format-characters", [
+        {"op": "add", "lw": P, "wells": L([(0, 0)]), "vols": S(1), "label": "sample {i}"},                 # 10 + 1 > 10
+        {"op": "remove", "lw": P, "wells": L([(1, 0)]), "vols": S(1), "label": "{}"},                      # 2 - 1 < 2
+        {"op": "aspirate", "lw": P, "wells": L([(1, 0)]), "vols": S(1), "label": "{0} and %d %s"},
+        {"op": "dispense", "lw": P, "wells": L([(0, 0)]), "vols": S(1), "label": "open { brace"},
+        {"op": "dispense", "lw": P, "wells": L([(0, 0)]), "vols": S(1), "label": "close } brace %"},
+        {"op": "distribute", "src": T, "col": 1, "dst": P, "dw": L([(0, 1)]), "vol": 1, "label": "{label!r:>10}"},   # column 2 is empty
+        {"op": "distribute", "src": T, "col": 0, "dst": P, "dw": L([(0, 0)]), "vol": 1, "label": "%(x)s {"},          # A01 is full
+        {"op": "add", "lw": P, "wells": L([(0, 1)]), "vols": S(1), "label": "fine {} %s"},
+    ], wlmax=20)
     prog("worklist", [
         {"op": "dispense", "lw": P, "wells": L([(0, 1), (1, 1)]), "vols": L([5, 10]), "label": "fill"},   # both exactly to max
         {"op": "dispense", "lw": P, "wells": L([(1, 1)]), "vols": S(1), "label": None},                   # overflow
@@ -271,18 +282,22 @@ def naming_programs():
     k = 0
     for (R, C) in [(1, 1), (2, 1), (2, 3), (3, 2), (8, 12), (5, 7)]:
         n = R * C
-        for pattern in ("default", "partial", "explicit", "shared"):
+        for pattern in ("default", "partial", "explicit", "shared", "partial-none"):
             init = [((i * 7) % 5) for i in range(n)]
             if pattern == "default":
                 names = None
-            elif pattern == "partial":
+            elif pattern in ("partial", "partial-none"):
                 names = [(f"n{i}" if (v > 0 and i % 2 == 0) else None) for i, v in enumerate(init)]
             elif pattern == "explicit":
                 names = [(f"n{i}" if v > 0 else None) for i, v in enumerate(init)]
             else:
                 names = [("same" if v > 0 else None) for v in init]
             h = _hdr(f"naming/plate{R}x{C}-{pattern}", "evo", [gen.mk_plate("stocks", R, C, 0, 10, init, names)])
-            h["ops"] = []
+            if pattern == "partial-none":
+                # the unnamed filled wells are listed in the dict with the value None (a table with missing names)
+                h["lw"][0]["none_keys"] = True
+            h["ops"] = [] if n < 2 else [
+                {"op": "transfer", "src": 0, "sw": L([(0, 0)] if R == 1 else [(1, 0)]), "dst": 0, "dw": L([(0, C - 1)]), "vols": S(1), "label": "pool", "wash": 1}]
             progs.append(h)
     for (V, C) in [(1, 1), (4, 1), (1, 3), (8, 4), (16, 2)]:
         for pattern in ("default", "partial", "explicit"):
@@ -617,6 +632,13 @@ def round2_programs(dev):
         {"op": "aspirate", "lw": P, "wells": L([(1, 1)]), "vols": S(2), "label": "would underflow a poisoned well"},
         {"op": "transfer", "src": T, "sw": L([(0, 0)]), "dst": P, "dw": L([(0, 1)]), "vols": S(NAN), "label": "nan transfer", "wash": 1},
     ], wlmax=40, flags={"comp": False, "norm": False})
+    # the same two components, listed in the opposite order with exchanged fractions, meet in one well
+    prog("composition-key-order", lw(), [
+        {"op": "dispense", "lw": P, "wells": L([(0, 1), (1, 1)]), "vols": S(4), "label": "first", "comps": [{"acid": (1, 4), "base": (3, 4)}, {"base": (1, 4), "acid": (3, 4)}]},
+        {"op": "dispense", "lw": P, "wells": L([(0, 1), (1, 1)]), "vols": S(4), "label": "second", "comps": [{"base": (1, 4), "acid": (3, 4)}, {"base": (1, 4), "acid": (3, 4)}]},
+        {"op": "transfer", "src": P, "sw": L([(0, 1)]), "dst": P, "dw": L([(1, 1)]), "vols": S(4), "label": "pool", "wash": 1},
+        {"op": "transfer", "src": P, "sw": L([(1, 1)]), "dst": Sx, "dw": L([(0, 1)]), "vols": S(6), "label": "on", "wash": 1},
+    ], wlmax=30)
     # a multi-well dispense with compositions that overflows in a later well
     prog("overflow-midway-with-compositions", lw(), [
         {"op": "dispense", "lw": P, "wells": L([(0, 0), (2, 3), (1, 1)]), "vols": L([5, 20, 3]), "label": "second overflows",
@@ -722,4 +744,21 @@ def config_programs(dev):
         {"op": "setconfig", "maxv": 4},
         {"op": "distribute", "src": T, "col": 0, "dst": P, "dw": L([(0, 3), (1, 3), (2, 3)]), "vol": 2, "label": "two per aspirate"},
     ], wlmax=5)
+    # the volume limits of a labware are public attributes too: tightened and widened between operations
+    prog("labware-limits", [
+        {"op": "dispense", "lw": P, "wells": L([(0, 1)]), "vols": S(20), "label": "fits 30"},
+        {"op": "setlimits", "lw": P, "minv": 0, "maxv": 15},
+        {"op": "dispense", "lw": P, "wells": L([(0, 1)]), "vols": S(1), "label": "already above the new limit"},
+        {"op": "dispense", "lw": P, "wells": L([(1, 1)]), "vols": S(5), "label": "fits 15"},
+        {"op": "dispense", "lw": P, "wells": L([(2, 1)]), "vols": S(16), "label": "does not fit 15"},
+        {"op": "transfer", "src": T, "sw": L([(0, 0)]), "dst": P, "dw": L([(2, 1)]), "vols": S(16), "label": "neither through transfer", "wash": 1},
+        {"op": "setlimits", "lw": P, "minv": 3, "maxv": 15},
+        {"op": "aspirate", "lw": P, "wells": L([(1, 1)]), "vols": S(3), "label": "would leave 2 < 3"},
+        {"op": "aspirate", "lw": P, "wells": L([(1, 1)]), "vols": S(2), "label": "leaves 3"},
+        {"op": "setlimits", "lw": P, "minv": 0, "maxv": 40},
+        {"op": "dispense", "lw": P, "wells": L([(2, 1)]), "vols": S(35), "label": "fits 40"},
+        {"op": "distribute", "src": T, "col": 1, "dst": P, "dw": L([(0, 2), (1, 2)]), "vol": 4, "label": "fits"},
+        {"op": "setlimits", "lw": T, "minv": 30, "maxv": 60},
+        {"op": "distribute", "src": T, "col": 1, "dst": P, "dw": L([(0, 3), (1, 3)]), "vol": 2, "label": "source would fall below 30"},
+    ], wlmax=40)
     return progs
